@@ -261,6 +261,12 @@ class OptimisticRules(WordLockRules):
                     b[S('p:' + prm['name'], prm['type'].get('bits') or 64)] = a
                 self.ver_val(fn, p, rows[0], b, ' from %s:%s' % (short(cf['name']), ce['line']))
 
+    def role_release_inl(self, fn, mg, paths, res):
+        out = super().role_release_inl(fn, mg, paths, res)
+        if mg[0] == 'X':
+            for p, row in out:
+                self.ver_val(fn, p, row, {}, ' (inline release)')
+
     def analyse(self):
         super().analyse()
         self.ver_flow()
